@@ -617,6 +617,10 @@ func argShapes(e *endpoint, quick bool) []Case {
 		}
 	case argIDList:
 		out = append(out, Case{IDs: []int64{}}, Case{IDs: []int64{1}}, Case{IDs: []int64{1, 1 << 31, 1<<40 - 1}}, Case{IDs: []int64{1 << 40, 2}})
+		// lists that name the ids the fake server answers with (103, 101, 102, ...), an id twice,
+		// in another order than the response, fewer and more than the response holds: what comes
+		// back is the server's answer, not something rebuilt from the request
+		out = append(out, Case{IDs: []int64{103, 103, 101}}, Case{IDs: []int64{101, 101}}, Case{IDs: []int64{102, 101, 103}}, Case{IDs: []int64{103, 101, 102, 104, 105}})
 		if !quick {
 			out = append(out, Case{IDs: []int64{7, 7}}, Case{IDs: []int64{1<<63 - 1, 1}},
 				Case{IDs: []int64{10, 9, 8, 7, 6, 5, 4, 3, 2, 1}})
